@@ -204,4 +204,18 @@ PROPS = {
         "accept_diffs": ("mut.",),
         "title": "Degree bounds",
     },
+    "C06": {
+        "props_file": "props/C06.v",
+        "flows": [(gen_pc.gen, "c06", 160, 1600)],
+        "oracles": [pc_honest, lambda c, lo: pc_mutations(c, lo, ("value", "const", "evals"))],
+        "accept_diffs": ("mut.",),
+        "title": "Linear-combination openings",
+    },
+    "C11": {
+        "props_file": "props/C11.v",
+        "flows": [(gen_pc.gen, "c11", 120, 1200)],
+        "oracles": [pc_honest, lambda c, lo: pc_mutations(c, lo, ("sponge_pre",))],
+        "accept_diffs": ("mut.",),
+        "title": "Transcript lock-step",
+    },
 }
